@@ -162,6 +162,9 @@ def breakers():
     out.append(('sizer', 'optional-u32', 'struct X { u32* n; u16 a<@n>; u8 z; };'))
     for t in ('float', 'double', 'F', 'E', 'UF'):
         out.append(('sizer', 'non-integer(%s)' % t, 'struct X { %s n; u8 a<@n>; };' % t))
+    for t in ('float', 'double', 'F', 'E', 'UF'):
+        out.append(('sizer', 'non-integer(typedef %s)' % t, 'typedef %s TS; struct X { TS n; u8 a<@n>; };' % t))
+        out.append(('sizer', 'non-integer(typedef typedef %s)' % t, 'typedef %s TS; typedef TS TTS; struct X { TTS n; u8 a<@n>; };' % t))
     out.append(('sizer', 'is-array', 'struct X { u8 n[2]; u8 a<@n>; };'))
     out.append(('sizer', 'is-itself', 'struct X { u8 a<@a>; };'))
     # duplicates
